@@ -3,6 +3,7 @@ package protobuild
 import (
 	"context"
 	"fmt"
+	"strings"
 
 	"github.com/bufbuild/protocompile/linker"
 	"github.com/bufbuild/protocompile/options"
@@ -19,6 +20,9 @@ type searchLinker struct {
 	symbols  *linker.Symbols
 	Reporter reporter.Reporter
 	resolver fileSource
+
+	// files currently being resolved, outermost first, to detect import cycles
+	resolving []string
 }
 
 func newLinker(src fileSource, errs reporter.Reporter) *searchLinker {
@@ -58,6 +62,16 @@ func (ll *searchLinker) resolveAll(ctx context.Context, filenames []string) (lin
 }
 
 func (ll *searchLinker) resolveFile(ctx context.Context, filename string) (linker.File, error) {
+	for _, ancestor := range ll.resolving {
+		if ancestor == filename {
+			return nil, fmt.Errorf("circular file import: %s -> %s", strings.Join(ll.resolving, " -> "), filename)
+		}
+	}
+	ll.resolving = append(ll.resolving, filename)
+	defer func() {
+		ll.resolving = ll.resolving[:len(ll.resolving)-1]
+	}()
+
 	ctx = log.WithField(ctx, "askFilename", filename)
 	result, err := ll.resolver.findFileByPath(ctx, filename)
 	if err != nil {
